@@ -26,7 +26,23 @@ func c01OnSend(t *rtTarget, resp *adminservice.StreamWorkflowReplicationMessages
 func rtRunActions(e *rtEnv, nActions int, maxBatch int) {
 	for step := 0; step < nActions; step++ {
 		nSrcActs := e.nSrc * (maxBatch + 1)
-		a := verifChoose("action", nSrcActs+e.nTgt)
+		nActs := nSrcActs + e.nTgt
+		if e.stallable {
+			nActs += e.nTgt
+		}
+		a := verifChoose("action", nActs)
+		if a >= nSrcActs+e.nTgt {
+			t := e.targets[a-nSrcActs-e.nTgt]
+			if t.stalled {
+				verifAction("resume-target")
+				t.resume()
+			} else {
+				verifAction("stall-target")
+				t.stall()
+			}
+			verifQuiesce()
+			continue
+		}
 		if a >= nSrcActs && !e.targets[a-nSrcActs].started {
 			// a target that is not connected yet: the action is "connect"
 			verifAction("connect")
@@ -37,6 +53,9 @@ func rtRunActions(e *rtEnv, nActions int, maxBatch int) {
 		if a < nSrcActs {
 			i := a / (maxBatch + 1)
 			n := a % (maxBatch + 1)
+			if e.wmOnly && n != 0 {
+				verifAssume(false)
+			}
 			if n == 0 {
 				verifAction("watermark")
 			} else {
@@ -67,6 +86,9 @@ func verifHarness_C01_routing() {
 	verifConfig("preempt", verifParam("preempt", 0))
 	verifConfig("maporder", verifParam("maporder", 0))
 	e := rtNewEnv(nSrc, nTgt)
+	if verifParam("late", 0) > 0 {
+		e.lateFrom = nTgt - 1 // the last target connects by an explicit action, possibly after tasks for it arrived
+	}
 	e.startAll()
 	for _, s := range e.sources {
 		s.onAck = c01OnAck
